@@ -56,11 +56,15 @@ def _svd_worker(task):
     case, seed = task
     rng = np.random.default_rng(seed)
     sp = int(rng.choice([0, -20, 20, -10, 10]))
+    RD.set_lam(2.0 ** -60)
+    if RD.tiered(case) and rng.random() < 0.5:
+        RD.set_lam(2.0 ** -80)       # dynamic range 1e12 inside one tensor: with sp = -20 the requested e is ~1e-18
     try:
         msg = RD.replay_svd(None, case, rng, scale_pow=sp)
     except Exception as ex:
         msg = 'svd raised %s: %s' % (type(ex).__name__, ex)
     reduced = any(a < b for o in case['outcomes'] for a, b in zip(o['ranks'], RD.input_ranks(case)))
+    RD.set_lam(2.0 ** -60)
     out = [('case', (case['ent'], case['T'], case['cap'], 'svd'), reduced,
             {'entries': case['ent'], 'T': case['T'], 'cap': case['cap'], 'scale_pow': sp, 'outcomes': case['outcomes'][:2]} if seed % 997 == 0 else None)]
     if msg:
@@ -79,10 +83,20 @@ def _matrix_worker(task):
         gt = ['l', 'm', 'r'][int(rng.integers(3))]
         if RD.tiered(case):
             fn = 'skeleton'          # matrix_svd works through a Gram matrix: sqrt(eps) floor
+    RD.set_lam(2.0 ** -60)
+    if RD.tiered(case) and rng.random() < 0.5:
+        RD.set_lam(2.0 ** -80)
+    if rng.random() < 0.5:
+        ns = RD.near_symmetric(case, rng)         # square unfoldings that are symmetric up to ~1e-6 (exact outcomes unchanged)
+        if ns is not None:
+            case = ns
+    if case['dir'] == 'ltr' and rng.random() < 0.4:
+        fn = 'ttsvd'                               # the d = 2 TT-SVD is the same factorisation reached through teneva.svd
     try:
-        msg = RD.replay_matrix(None, case, rng, fn, give_to=gt, scale_pow=sp)
+        msg = RD.replay_svd(None, case, rng, scale_pow=sp) if fn == 'ttsvd' else RD.replay_matrix(None, case, rng, fn, give_to=gt, scale_pow=sp)
     except Exception as ex:
         msg = 'matrix_%s raised %s: %s' % (fn, type(ex).__name__, ex)
+    RD.set_lam(2.0 ** -60)
     reduced = any(o['ranks'][0] < RD.input_ranks(case)[0] for o in case['outcomes'])
     out = [('case', (case['ent'], case['T'], case['cap'], case['dir'], fn, gt), reduced, None)]
     if msg:
